@@ -74,7 +74,7 @@ def run(ck):
     ck.require(conds, "no comparison found in checkSizeRotation")
     exact = True
     for c in conds:
-        cf = comparison_form(c, sym)
+        cf = comparison_form(c, sym, cs)
         if cf is None or any(abs(v) > 1 for k, v in cf[0].items() if k) or abs(cf[0].get("", 0)) > 3:
             exact = False
             ck.ob("C07-O1", sitestr(cs, c), None, "comparison %s is not a unit-coefficient linear form over (current, added, limit); the grid evaluation would not be exact" % describe(c))
@@ -99,23 +99,23 @@ def run(ck):
         ck.ob("C07-O1", sitestr(ri, calls[0]), False if chars else None, "the added size is %s%s" % (describe(arg), ": UTF-16 code units, not bytes" if chars else ""), key="rotateIfNeeded|added-size-source")
         return
     c = lf.get("", 0)
-    ck.ob("C07-O1", sitestr(ri, calls[0]), c >= 1, "added size = encoded length + %d (the newline is counted)" % c if c >= 1 else "added size = encoded length + %d: the terminating newline is not counted, a file can end up L+1 bytes long" % c,
-          key="rotateIfNeeded|newline-not-counted")
+    ck.notes.append("rotateIfNeeded passes encoded length + %d to checkSizeRotation; whether the newline is counted in total is decided by the grid below" % c)
     # grid
     bad = []
     n = 0
     for cur, ln, L in itertools.product(range(0, 8), range(0, 7), range(1, 11)):
-        add = ln + max(c, 0) if c >= 1 else ln + c
+        add = ln + c
         def leaf(x, cur=cur, add=add, L=L):
             s = sym(x)
             return {"cur": cur, "add": add, "L": L}.get(s) if s else None
+        leaf.fn = cs
         live = rsite in g.live(g.projector(numeric_atom(cs, leaf)))
         need = cur >= 1 and cur + ln + 1 > L
         n += 1
         if need and not live:
             bad.append((cur, ln, L))
     ck.ob("C07-O1", sitestr(cs, rot[0]), not bad, "%d grid points (current 0..7, length 0..6, L 1..10): rotate() is reached whenever current > 0 and current + length + 1 > L" % n if not bad else
-          "no rotation for (current, length, L) = %s: the file grows to %d > L bytes" % (bad[0], bad[0][0] + bad[0][1] + 1), key="checkSizeRotation|inequality")
+          "no rotation for (current, length, L) = %s: the file grows to %d > L bytes (the terminating newline or a boundary case is not counted)" % (bad[0], bad[0][0] + bad[0][1] + 1), key="checkSizeRotation|inequality")
     # ---- O2
     if counter and not cur_locals:
         counter_protocol(ck, S, sorted(counter)[0])
@@ -142,7 +142,7 @@ def run(ck):
     for L in (1, 2, 100):
         keep = g.projector(numeric_atom(cs, lambda x, L=L: L if is_this_field(x, LF) else None))
         # the comparison itself must be reached (not returned before)
-        cmp_sites = [g.site_of(c) for c in conds if "cur" in (comparison_form(c, sym)[0])]
+        cmp_sites = [g.site_of(c) for c in conds if "cur" in (comparison_form(c, sym, cs)[0])]
         if not any(s in g.live(keep) for s in cmp_sites if s):
             bad.append(L)
     ck.ob("C07-O3", sitestr(cs), not bad, "the early return is taken only for L <= 0" if not bad else "checkSizeRotation returns early for L in %s" % bad, key="checkSizeRotation|early-return")
